@@ -242,6 +242,37 @@ theorem granularity_total (cmp : Tree → Tree → Ordering) (g : Granularity) (
     ∃ res, withGranularity cmp g its = .ok res :=
   RF.Lemmas.Imports.granularity_total cmp g its
 
+/-! ## visibility: `is_same_visibility` / `UseTree::same_visibility`, literally -/
+
+private def s (str : String) : List Char := str.toList
+
+/-- `is_same_visibility` holds exactly when the two visibilities denote the same thing
+(`pub(crate)` and `pub(in crate)` do, `pub(in a)` and `pub(in a::b)` do not), for visibilities as the
+parser builds them (a restricted path is non-empty and no name contains a colon). -/
+theorem sameVisibility_iff_eq (a b : Vis) (ha : visWF a = true) (hb : visWF b = true) :
+    isSameVisibility a b = true ↔ visDen a = visDen b :=
+  isSameVisibility_iff_den a b ha hb
+
+example : visWF (.vres [s "crate", s "engine"] false) = true ∧
+    isSameVisibility (.vres [s "crate"] true) (.vres [s "crate"] false) = true ∧
+    isSameVisibility (.vres [s "crate"] true) (.vres [s "crate", s "engine"] false) = false ∧
+    isSameVisibility (.vres [s "crate", s "engine"] false) (.vres [s "crate", s "engine", s "planner"] false) = false ∧
+    isSameVisibility (.vres [s "super"] true) (.vres [s "super", s "x"] false) = false ∧
+    isSameVisibility .vpub (.vres [s "crate"] true) = false := by decide
+
+/-- The guard is needed: names with colons (no parser builds them) collide under `path_to_string`. -/
+theorem sameVisibility_colon_counterexample :
+    isSameVisibility (.vres [s "a::b"] false) (.vres [s "a", s "b"] false) = true ∧
+    visDen (.vres [s "a::b"] false) ≠ visDen (.vres [s "a", s "b"] false) := by decide
+
+/-- The model of the import algebra keeps, of a visibility, the key `visKey`; comparing keys (what
+`sharePrefix` does, `sameVis`) IS `UseTree::same_visibility` with `is_same_visibility` inside, for
+every pair of optional visibilities, without hypothesis. -/
+theorem sameVisibility_is_key_equality (a b : Option Vis) :
+    sameVisibility a b = sameVis (a.map visKey) (b.map visKey) ∧
+    (∀ x y : Vis, isSameVisibility x y = true ↔ visKey x = visKey y) :=
+  ⟨sameVisibility_eq_sameVis a b, isSameVisibility_iff_key⟩
+
 /-! ## no merging across attributes, comments, visibility -/
 
 /-- (1) `share_prefix` is false when `self` has attributes or a comment, and across differing
